@@ -6,6 +6,7 @@
    functions of (everything logged on the connection so far, the argument) returning
    Pass x | Drop | Reject response | Raise exception, over all requests and all histories. *)
 From PM Require Import Lib.Bytes Lib.PyStr Net.Auth Net.AuthFacts Net.PluginChain Net.PluginChainFacts.
+From Coq Require Import ZArith.
 
 (* Every hook chain the handler runs (before_upstream_connection, handle_client_request — first and
    later requests —, handle_client_data, handle_upstream_chunk, on_access_log: all are [chain] in
@@ -157,7 +158,7 @@ Print Assumptions C09_no_lifecycle_before_shutdown.
 (* ------------------------------------------------------------------ non-vacuity and recorded examples *)
 Definition ex_cf : config := mkConfig (bs "proxy.py v0") [].
 Definition ex_req : request :=
-  mkRequest (bs "GET") (Some (bs "h.example")) (Some 80) (Some (bs "/")) HTTP_1_1
+  mkRequest (bs "GET") (Some (bs "h.example")) (Some 80%Z) (Some (bs "/")) HTTP_1_1
             (headers_of_lines [bs "Host: h.example"]) None false.
 Definition ex_c0 : ctx := map (fun k => (k, @nil N)) (required_keys false).
 
